@@ -124,6 +124,49 @@ static bool ChronoConverters(Source& s, std::string& bad)
 	return true;
 }
 
+// The stream operators the library generates for registered enums (DECLARE_ENUM_STREAM_OPS): tokens, blanks and junk from a
+// stream that is healthy, already failed, or fails in the middle of the token.
+static Outcome EnumStreamLeg(RunCtx& ctx)
+{
+	Source& s = ctx.src;
+	Outcome out;
+	out.cfgKey = "enum-stream";
+	ctx.count("leg.enum_stream");
+	static const char* const tokens[] = { "Red", "Green", "Blue", "red", "BLUE", "Purple", "", " ", "Red Green", "\tBlue\n", "Re", "Redd", "0", "-1" };
+	std::string text = s.pick(sim::L_DOC, tokens);
+	if (s.chance(sim::L_DOC, 1, 4)) text = ToUtf8(GenText(s, sim::L_DOC, TextProfile::Any, 40));
+	if (s.chance(sim::L_DOC, 1, 3)) text = "  " + text;
+	if (s.chance(sim::L_DOC, 1, 3)) text += " x";
+	const uint32_t state = s.draw(sim::L_FAULT, 4);   // 0 healthy, 1 failbit set before, 2 device error at byte k (badbit), 3 the same, reported by throwing
+	sim::InFaults f;
+	if (state >= 2) f.failAt = s.draw(sim::L_FAULT, static_cast<uint32_t>(text.size() + 1));
+	const InCfg c = DrawStreamCfg(s, sim::L_IO);
+	sim::SimIStreamBuf sb(text, c.seekable, c.delivery, f);
+	std::istream is(&sb);
+	if (state == 1) is.setstate(std::ios::failbit);
+	if (state == 3) is.exceptions(std::ios::badbit);
+	ctx.note("enum stream leg: text=" + sim::hex(text, 60) + " state=" + std::to_string(state) + (state >= 2 ? " failAt=" + std::to_string(f.failAt) : ""));
+	ZooColor color = ZooColor::Red;
+	CallResult r;
+	int64_t peak = 0;
+	sim::steps_begin(200000);
+	sim::stream_call_budget(20000);
+	{
+		sim::AllocArm arm;
+		r = Guarded([&] { is >> color; });
+		peak = sim::alloc().peakBytes;
+	}
+	sim::steps_end();
+	ctx.note("  -> " + r.cat + " " + r.what);
+	if (!r.isStd) return Violation("WRONG_EXCEPTION", "leg=enum_stream", "exception not derived from std::exception");
+	if (peak > (1 << 20)) return Violation("MEMORY", "leg=enum_stream what=peak", "reading an enum from a " + std::to_string(text.size()) + "-byte stream allocated " + std::to_string(peak) + " bytes");
+	std::string back;
+	CallResult w = Guarded([&] { std::ostringstream os; os << color; back = os.str(); });
+	if (!w.ok) return Violation("WRONG_EXCEPTION", "leg=enum_stream dir=out", "writing an enum to a stream threw " + w.cat);
+	out.nontrivial = state != 0;
+	return out;
+}
+
 static std::string NestBomb(Source& s, int archive)
 {
 	static const uint32_t depths[] = { 50, 500, 3000, 20000, 60000 };
@@ -159,6 +202,7 @@ static std::string NestBomb(Source& s, int archive)
 Outcome RunC02(RunCtx& ctx)
 {
 	Source& s = ctx.src;
+	if (s.chance(sim::L_CFG, 1, 32)) return EnumStreamLeg(ctx);
 	const int archive = static_cast<int>(s.draw(sim::L_CFG, A_COUNT));
 	ArchiveOps& ops = GetOps(archive);
 	const std::string an = ArchiveName(archive);
